@@ -524,6 +524,7 @@ func rulesC14(c *Ctx) {
 	c07Race(c)
 	c09Loop(c)
 	configImmutableAll(c)
+	buildCopiesConfig(c)
 	witnessRules(c, "C14")
 }
 
